@@ -219,6 +219,17 @@ static void prop(Ctx &c) {
         bool must_reject = false;
         if (have_dg) for (size_t i = 0; i < h.header_digest.size(); i++) if ((hexval(last_dg[2 * i]) << 4 | hexval(last_dg[2 * i + 1])) != h.header_digest[i]) must_reject = true;
         if (have_len && last_len != (long)h.total_size) must_reject = true;
+        // the pins stay in force for every later lead read on the context: pointed at another file of the same checksum type (zck_set_fd,
+        // as when a download manager re-uses its context for the next candidate), a lead with a different checksum must be refused
+        if (!odd && acc && !must_reject && have_dg && c.boolean()) {
+            Bytes D2(1 + c.draw(300)); gen::fill_random(D2.data(), D2.size(), 1000 + c.draw(99)); lib::WCfg w2 = w; lib::WResult wr2 = lib::write_file(w2, D2, {});
+            ref::ParseResult p2 = wr2.ok ? ref::parse(wr2.file) : ref::ParseResult();
+            if (wr2.ok && p2.ok && p2.h.header_digest != h.header_digest) {
+                int fd2 = lib::mkfd(wr2.file); bool sw = zck_set_fd(z, fd2); bool acc2 = sw && (c.boolean() ? zck_validate_lead(z) : zck_read_lead(z)); evals++; c.label("second-file-on-pinned-context");
+                if (acc2) { zck_free(&z); close(fd); close(fd2); c.fail("lead-accepted", "a context with the checksum of file A pinned accepted the lead of file A and then, pointed at file B with zck_set_fd(), accepted B's lead although its stored checksum differs from the pin {" + hist + "}"); }
+                close(fd2);
+            }
+        }
         zck_free(&z); close(fd); c.label(refused ? "pin-history-with-refusal" : "pin-history");
         if (!odd && acc && must_reject) c.fail("lead-accepted", std::string(api ? "zck_validate_lead" : "zck_read_lead") + " accepted a lead whose stored values differ from the pins in force after the history {" + hist + "}");
         if (!odd && !refused && !acc && !must_reject) c.fail("lead-rejected", std::string(api ? "zck_validate_lead" : "zck_read_lead") + " rejected a lead whose stored values equal the pins in force after the history {" + hist + "}");
